@@ -49,8 +49,6 @@ pub open spec fn line_post(sv: &SourceView, idx: int, res: Option<&str>) -> bool
     && (res is None ==> idx >= sv_lines(sv).len())
 }
 
-/// UTF-16 code units of a run of characters
-pub open spec fn cum16(cs: Seq<char>) -> int decreases cs.len() { if cs.len() == 0 { 0 } else { cum16(cs.drop_last()) + u16w(cs.last()) } }
 /// i0 is the first character boundary at or after code unit `col`, i1 the first one at or after code unit `end` (not before i0)
 pub open spec fn slice_bounds(cs: Seq<char>, col: int, end: int, i0: int, i1: int) -> bool {
     0 <= i0 <= i1 <= cs.len()
@@ -62,29 +60,4 @@ pub open spec fn slice_bounds(cs: Seq<char>, col: int, end: int, i0: int, i1: in
 pub open spec fn slice_post(cs: Seq<char>, col: int, end: int, res: Option<&str>) -> bool {
     (cum16(cs) < end ==> res is None) &&
     (cum16(cs) >= end ==> exists|i0: int, i1: int| #[trigger] slice_bounds(cs, col, end, i0, i1) && (res matches Some(x) && x@ == cs.subrange(i0, i1)))
-}
-pub proof fn lemma_prefix_step(cs: Seq<char>, k: int)
-    requires 0 <= k < cs.len()
-    ensures cum16(cs.subrange(0, k + 1)) == cum16(cs.subrange(0, k)) + u16w(cs[k]),
-        utf8_len(cs.subrange(0, k + 1)) == utf8_len(cs.subrange(0, k)) + u8w(cs[k]),
-        1 <= u16w(cs[k]) <= u8w(cs[k]) <= 4,
-{
-    let a = cs.subrange(0, k + 1);
-    assert(a.drop_last() == cs.subrange(0, k));
-    assert(a.last() == cs[k]);
-    assert(a == cs.subrange(0, k) + seq![cs[k]]);
-    encode_utf8_concat(cs.subrange(0, k), seq![cs[k]]);
-    assert(seq![cs[k]].drop_first() == Seq::<char>::empty());
-    assert(encode_utf8(seq![cs[k]]) == encode_scalar(cs[k] as u32) + encode_utf8(Seq::<char>::empty()));
-    char_is_scalar(cs[k]);
-}
-pub proof fn lemma_prefix_mono(cs: Seq<char>, i: int, j: int)
-    requires 0 <= i <= j <= cs.len()
-    ensures cum16(cs.subrange(0, i)) <= cum16(cs.subrange(0, j)), utf8_len(cs.subrange(0, i)) <= utf8_len(cs.subrange(0, j)),
-        cum16(cs.subrange(0, j)) <= utf8_len(cs.subrange(0, j)), 0 <= cum16(cs.subrange(0, i))
-    decreases j
-{
-    if j == 0 { assert(cs.subrange(0, 0) == Seq::<char>::empty()); }
-    else if i == j { lemma_prefix_mono(cs, 0, j - 1); lemma_prefix_step(cs, j - 1); }
-    else { lemma_prefix_mono(cs, i, j - 1); lemma_prefix_step(cs, j - 1); }
 }
